@@ -238,3 +238,10 @@ def evidence_extra(tier, tot):
         "enumeration": f"all documents of 1..{n} lines over a {len(ALPHABET)}-shape line alphabet x {{with, without}} final newline x {len(ENUM_CFGS)} configurations (complete)",
         "exhaustive_subspace": True,
     }
+
+
+def extra_phase(tier, seed, shard, nshards, coll):
+    """thorough tier: an atheris (libFuzzer) campaign with this module's oracle inside the target."""
+    from ..fuzz import atheris_phase
+
+    atheris_phase(__import__("sys").modules[__name__], tier, seed, shard, nshards, coll, int(__import__("os").environ.get("VERIF_ATHERIS_SECONDS", "600")))
